@@ -730,3 +730,14 @@ mutant("C17-M18", "C17", "R17a", "perturbations drawn from a module-level Genera
 mutant("C18-M23", "C18", "R20i", "nesting check compares every stage with the first", CS, "validate_cascade", "if not (set(expanded[i + 1]) <= set(expanded[i])):", "if not (set(expanded[i + 1]) <= set(expanded[0])):")
 mutant("C01-M27", "C01", "R01m", "junction remembers the last inflow on itself", M, "JunctionCompartment.balance", "        outflow_fractions = [link.parameter.vals[ti] for link in self.outlinks]", "        self._last_inflow = net_inflow\n        outflow_fractions = [link.parameter.vals[ti] for link in self.outlinks]")
 mutant("C08-M22", "C08", "R08g", "update counts its own calls", M, "Compartment.update", "        tr = ti - 1\n", "        self._n_updates = getattr(self, \"_n_updates\", 0) + 1\n        tr = ti - 1\n")
+
+# ---- R18f confirmed validation table
+mutant("C18-M24", "C18", "R18f", "junction outflow unit rule inverted", FW, "ProjectFramework._validate_parameters", 'if par["format"] != FS.QUANTITY_TYPE_PROPORTION:', 'if par["format"] == FS.QUANTITY_TYPE_PROPORTION:', accept_skip=True)
+mutant("C18-M25", "C18", "R18f", "duplicate-source rule only above two outflows", FW, "ProjectFramework._validate_parameters", "if n_source_outflow > 1:", "if n_source_outflow > 2:")
+mutant("C18-M26", "C18", "R18f", "compartment can be both source and sink", FW, "ProjectFramework._validate_compartments", '.count("y") > 1', '.count("y") > 2')
+mutant("C18-M27", "C18", "R18f", "reserved keywords allowed as names", FW, "ProjectFramework._validate_names", "if name in FS.RESERVED_KEYWORDS:", "if name in FS.RESERVED_KEYWORDS and False:")
+mutant("C18-M28", "C18", "R18f", "undefined compartment in the transition matrix accepted", FW, "ProjectFramework._process_transitions", "if comp not in comps:", "if comp not in comps and False:")
+mutant("C18-M29", "C18", "R18f", "missing data for an initialisation compartment accepted", FW, "ProjectFramework._validate_compartments", 'if (row["setup weight"] > 0) and pd.isna(row["databook page"]) and pd.isna(row["default value"]):', 'if (row["setup weight"] > 1) and pd.isna(row["databook page"]) and pd.isna(row["default value"]):')
+twin("C18-T5", "C18", "validation condition rewritten equivalently", FW, "ProjectFramework._validate_names", "if name in FS.RESERVED_KEYWORDS:", "if not (name not in FS.RESERVED_KEYWORDS):")
+mutant("C18-M30", "C18", "R18f", "databook unit mismatch accepted for parameters", DA, "ProjectData._validate", "if ts.units.strip().lower() != framework_units.strip().lower():", "if ts.units.strip().lower() != framework_units.strip().lower() and obj_type != \"pars\":")
+mutant("C18-M31", "C18", "R18f", "missing population data accepted", DA, "ProjectData._validate", "assert ts.has_data, \"%s. Data values missing for %s (%s)\" % (location, tdve.name, name)", "pass")
